@@ -21,3 +21,17 @@ Theorem C19_transport_independent : forall d d' dn pw, users d = users d' -> ano
   handle_bind d dn pw = handle_bind d' dn pw.
 Proof. exact bind_depends_only. Qed.
 Print Assumptions C19_transport_independent.
+
+(* over histories: after ANY operations (adds, deletes and modifies by any DN,
+   Set* calls, searches, binds) a bind is answered from the user entries and
+   the anonymous flag of the state reached - C19_bind_iff then says which -
+   and the Users() getter shows exactly those entries (the correspondence run
+   evaluates the property's predicate over what the getter returns) *)
+Theorem C19_bind_in_history : forall eqfold replfix d0 pre dn pw post,
+  let d := fst (drun eqfold replfix d0 pre) in
+  nth_error (snd (drun eqfold replfix d0 (pre ++ DBind dn pw :: post))) (length pre) =
+    Some {| res_code := handle_bind d dn pw; res_entries := [] |} /\
+  nth_error (snd (drun eqfold replfix d0 (pre ++ DUsers :: post))) (length pre) =
+    Some {| res_code := 0; res_entries := users d |}.
+Proof. exact bind_in_history. Qed.
+Print Assumptions C19_bind_in_history.
